@@ -7,7 +7,7 @@ from mir2smt import envlib as E
 from mir2smt.builtins import deref
 from obligations import c20 as _c20
 
-CRATES = ["ckb-constant", "ckb-occupied-capacity-core", "ckb-types", "ckb-chain-spec", "ckb-proposal-table", "ckb-verification", "ckb-verification-contextual"]
+CRATES = ["ckb-constant", "ckb-occupied-capacity-core", "ckb-types", "ckb-traits", "ckb-chain-spec", "ckb-proposal-table", "ckb-verification", "ckb-verification-contextual"]
 U64 = (1 << 64) - 1
 ERR = [(E.rx(r"as Into<.*Error>>::into$|Error as From<.*>>::from$|ErrorKind::because|::other$"), E.opaque_call())]
 
@@ -137,14 +137,62 @@ def m5_commit_window(S):
         r["obligation"] = "C03.m5"
 
 
-OBLIGATIONS = [m1_number_epoch, m2_timestamp, m3_contextual_epoch, m4_limits, m5_commit_window]
+def m6_median_time(S):
+    """past-median time: the real default method HeaderFieldsProvider::block_median_time over a symbolic chain:
+    the result is the upper median of the timestamps of the last k = min(count, height+1) blocks"""
+    ob = "C03.m6"
+    K = 5 if S.tier == "quick" else 9
+    ctx = S.ctx(unwind=K + 2)
+    h = ctx.int("height", "u64"); count = ctx.int("count", "usize")
+    ts = [ctx.int(f"ts{i}", "u64") for i in range(K)]
+
+    def get_fields(ex, callee, args, dty):
+        i = len([e for e in ex.log if e[0] == "hf"])
+        ex.log.append(("hf", callee, [nm_(ex, args[-1])], list(ex.pc)))
+        if i >= K:
+            from mir2smt.exec import UnwindExceeded
+            raise UnwindExceeded("header lookups beyond the bound")   # proven infeasible under `count <= K` by S.run
+        num = IntV(T.sub(h.t, i), "u64")
+        return mk_option(True, AggV((OpaqueV(f"hash{i}", "Byte32"), num, AggV((IntV(0, "u64"),), "EpochNumberWithFraction"), ts[i], OpaqueV(f"parent_of_{i}", "Byte32")), "HeaderFields"), dty)
+
+    def nm_(ex, v):
+        v = deref(ex, v)
+        return getattr(v, "name", "?")
+    ctx.env = [(E.rx(r"HeaderFieldsProvider>::get_header_fields$"), get_fields),
+               (E.rx(r"Byte32 as Clone>::clone$"), lambda ex, c, a, d: deref(ex, a[0]))]
+    fn = [f for f in S.prog.by_short.get("block_median_time", []) if f.name.startswith("HeaderFieldsProvider::")]
+    if len(fn) != 1:
+        raise Inconclusive(f"block_median_time default method: {len(fn)} candidates")
+    pre = [T.le(1, count.t), T.le(count.t, K), T.le(h.t, 1 << 40)]
+    ps = S.run(ctx, fn[0], [ctx.ref_to(OpaqueV("dl", "Self")), ctx.ref_to(OpaqueV("start_hash", "Byte32")), count], assume=pre)
+    S.prove(ctx, ob, "no_panic", pre, T.not_(cond_of(panics(ps))))
+    k = T.imin(count.t, T.add(h.t, 1))
+    got = merged(ps, as_int)
+    # rank characterisation of the upper median among the first k timestamps (walk goes start, parent, grand-parent ...)
+    less = 0; le = 0; member = False
+    for i in range(K):
+        inw = T.lt(i, k)
+        less = T.add(less, T.ite(T.and_(inw, T.lt(ts[i].t, got)), 1, 0))
+        le = T.add(le, T.ite(T.and_(inw, T.le(ts[i].t, got)), 1, 0))
+        member = T.or_(member, T.and_(inw, T.eq(ts[i].t, got)))
+    half = T.ediv(k, 2)
+    S.prove(ctx, ob, "result_is_upper_median_of_last_k_timestamps", pre, T.and_(member, T.le(less, half), T.ge(le, T.add(half, 1))), timeout_s=300)
+    # the walk follows parent hashes and stops at genesis
+    for kk, p in enumerate(returns(ps)):
+        hs = [e[2][0] for e in p.log if e[0] == "hf"]
+        okflow = all(hs[i] == ("start_hash" if i == 0 else f"parent_of_{i-1}") for i in range(len(hs)))
+        S.prove(ctx, ob, f"path{kk}_walk_follows_parent_hashes_for_k_blocks", pre + [p.cond()], T.and_(bool(okflow), T.eq(len(hs), k)))
+    S.witness(ctx, ob, "reach_even_window_distinct_middles", pre, T.and_(T.eq(k, 4), T.lt(ts[0].t, ts[1].t), T.lt(ts[1].t, ts[2].t), T.lt(ts[2].t, ts[3].t), T.eq(got, ts[2].t)))
+
+
+OBLIGATIONS = [m1_number_epoch, m2_timestamp, m3_contextual_epoch, m4_limits, m5_commit_window, m6_median_time]
 
 ENGINE = "M"
 LEVEL = "other"
 EXPLANATION = ("Rule kernels of block acceptance (number, epoch continuity, timestamp window, epoch/target match, proposal and size limits, commit window) symbolically "
                "executed from MIR with header accessors and store lookups as environment symbols; each verdict is decided equal to the stated rule for all field values.")
-BOUNDS = {"values": "all u64/u32 field values", "window walk": "window length <= 6 (quick) / 14 (thorough)",
-          "outside": "whole-block iff, uncle descent and double inclusion (HashMap/store), merkle roots, cellbase shape, extension/MMR, proof of work hash, refusal-as-a-whole (RocksDB transaction), median time computation itself (provider default method)"}
+BOUNDS = {"values": "all u64/u32 field values", "window walk": "window length <= 6 (quick) / 14 (thorough)", "median": "median_block_count <= 5 (quick) / 9 (thorough); consensus uses 37",
+          "outside": "whole-block iff, uncle descent and double inclusion (HashMap/store), merkle roots, cellbase shape, extension/MMR, proof of work hash, refusal-as-a-whole (RocksDB transaction), median time for counts above the bound"}
 ASSUMPTIONS = ["header/block accessors return the symbolic field values (molecule decoding is C15/C16)", "block_median_time is an environment symbol (its value is any u64)", "error conversions are opaque"]
 TRUSTED = []
 LEVEL_TEXT = "Each listed rule kernel is decided by SMT over the real MIR for all inputs; C03 is claimed for these kernels only, not for the pipeline-level iff."
